@@ -478,6 +478,43 @@ def run(ctx):
             if got_s != want_s:
                 viol("meaning|edited-topology", "select(%r) on a topology edited in place (%s) gives %s, its documented meaning is %s" % (s2, "; ".join(stages), got_s, want_s), dict(expr=s2, stages=stages))
                 break
+    # ---- the same expressions on a second topology that differs only in what Topology.__eq__ does not compare (residue numbers, segment
+    # ids), and on one topology renumbered in place between two selections
+    topA, topB = build_top(md), build_top(md)
+    for r in topB.residues:
+        r.resSeq = r.resSeq + 100
+        r.segment_id = {"SEGA": "SEGB", "": "W", "ION": "", "orx": "SEGA"}.get(r.segment_id, r.segment_id)
+    rowsB = atom_table(md, topB)
+    renum = [e for e in exprs if any(w in repr(e) for w in ("resSeq", "segname", "segment_id", "residue"))][:ctx.n(40, 200)]
+    renum += [("inlist", ["resSeq", "residue"], [("n", 1), ("n", 3)]), ("inlist", ["segname", "segment_id"], [("w", "SEGA")]), ("cmp", [("kw", ["resSeq"]), ("lit", ("n", 100))], ["gt"])]
+    for e in renum:
+        T, S = R.expr(e)
+        s4 = " ".join(S)
+        outs = []
+        for which, tp, rw in (("first", topA, rows), ("numbered otherwise", topB, rowsB)):
+            try:
+                want_s = "OK " + ",".join(map(str, [i for i, row in enumerate(rw) if ev(e, row)]))
+            except TypeErr:
+                want_s = "ERR"
+            try:
+                got_s = "OK " + ",".join(map(str, tp.select(s4).tolist()))
+            except Exception:  # noqa: BLE001
+                got_s = "ERR"
+            outs.append((which, got_s, want_s))
+        ctx.case(None, ("renumbered", s4)); ctx.count("expressions on two topologies that differ in residue numbers and segment ids only")
+        bad_ = [o for o in outs if o[1] != o[2]]
+        if bad_:
+            viol("meaning|renumbered-topology", "select(%r) on the %s of two topologies that differ only in residue numbers / segment ids gives %s, its documented meaning is %s" % (s4, bad_[0][0], bad_[0][1], bad_[0][2]), dict(expr=s4))
+            break
+    topC = build_top(md)
+    before = topC.select("resSeq 1 3 or segname SEGA")
+    for r in topC.residues:
+        r.resSeq = r.resSeq + 100
+        r.segment_id = "Q"
+    after = topC.select("resSeq 1 3 or segname SEGA")
+    ctx.case(None, ("renumbered-in-place",)); ctx.count("selections repeated after renumbering in place")
+    if len(before) == 0 or len(after) != 0:
+        viol("meaning|renumbered-in-place", "select('resSeq 1 3 or segname SEGA') gives %s before and %s after every residue was renumbered (+100) and moved to segment Q in place" % (before.tolist()[:8], after.tolist()[:8]), dict(expr="resSeq 1 3 or segname SEGA"))
     # ---- atoms that are not numbered in chain/residue order (an atom appended to an earlier residue): still "in increasing order"; and
     # an empty selection is an integer index array like any other
     top3 = build_top(md)
